@@ -11,6 +11,7 @@ import (
 	"encoding/hex"
 	"errors"
 	"fmt"
+	"sync/atomic"
 
 	"github.com/nspcc-dev/dbft"
 )
@@ -495,8 +496,16 @@ func (b *Block) SetTransactions(t []dbft.Transaction[H]) {
 	b.txs = t
 }
 
-// SignWith computes the signature of key over the block.
-func (b *Block) SignWith(k *Key) []byte { return mac(&k.secret, "blk", b.HashData()) }
+// sigNonce makes signatures randomised like real ECDSA ones: signing the same block twice gives
+// two different, equally valid signatures.
+var sigNonce atomic.Uint64
+
+// SignWith computes a signature of key over the block: nonce || MAC(secret, nonce || data).
+func (b *Block) SignWith(k *Key) []byte {
+	var nonce [8]byte
+	binary.LittleEndian.PutUint64(nonce[:], sigNonce.Add(1))
+	return append(nonce[:], mac(&k.secret, "blk", append(nonce[:], b.HashData()...))[:56]...)
+}
 
 func (b *Block) Sign(key dbft.PrivateKey) error {
 	if b.obs != nil {
@@ -517,7 +526,7 @@ func (b *Block) Verify(pub dbft.PublicKey, sig []byte) error {
 	if !ok || p == nil {
 		return errors.New("bad public key")
 	}
-	if !bytes.Equal(mac(p.secret, "blk", b.HashData()), sig) {
+	if len(sig) != 64 || !bytes.Equal(mac(p.secret, "blk", append(append([]byte(nil), sig[:8]...), b.HashData()...))[:56], sig[8:]) {
 		return errors.New("bad signature")
 	}
 	return nil
